@@ -1,4 +1,5 @@
 import AsyncFix.Lemmas.LinkRun
+import AsyncFix.Lemmas.LinkLive
 
 /-!
 # C07 – no application message is lost, duplicated or reordered across connection loss
@@ -129,6 +130,90 @@ theorem link_coverage_invariant (hb : Int) (evs : List Ev) (hwf : Wf evs) (hr : 
 rests in a transient state and every frame in flight is one the peer can parse -/
 theorem link_wellformed (hb : Int) (evs : List Ev) (hwf : Wf evs) : LinkGood (run (Link.init hb) evs) :=
   (run_sim evs (Link.init hb) (linkGood_init hb) hwf).2
+
+/-! ### quiescence is reachable (termination of the recovery handshake) -/
+
+theorem run_append (l : Link) (a b : List Ev) : run l (a ++ b) = run (run l a) b := by
+  induction a generalizing l with
+  | nil => rfl
+  | cons e r ih => simp only [List.cons_append, run]; exact ih _
+
+/-- a clock value for the recovery events (any single-byte text will do) -/
+def env0 : Env := { now := 0, stamp := "" }
+
+/-- the concrete event of an abstract delivery -/
+def concEv : AEv → Ev
+  | .deliverNext s => .deliverNext s env0
+  | _ => .breakConn env0
+
+/-- the events of a recovery: break, reconnect, deliveries -/
+def isRecoveryEv : Ev → Bool
+  | .appSend _ _ _ => false
+  | _ => true
+
+theorem quiescent_of_abs {l : Link} (hg : LinkGood l) (h : (absLink l).quiescent = true) : l.quiescent = true := by
+  simp only [ALink.quiescent, Bool.and_eq_true, decide_eq_true_eq, List.isEmpty_iff] at h
+  obtain ⟨⟨⟨hi, ha⟩, hqa⟩, hqi⟩ := h
+  have st17 : ∀ {s : Side} {c : Conn}, ConnGood s c → (absConn c).st = .active → c.state = st_ACTIVE := by
+    intro s c hc hst
+    rcases hc.st with h | h | h | h | h | h | h
+    · simp [absConn, absSt, h, st_DISCONNECTED_NOCONN_TODAY, st_DISCONNECTED_BROKEN_CONN] at hst
+    · simp [absConn, absSt, h, st_DISCONNECTED_WCONN_TODAY, st_DISCONNECTED_BROKEN_CONN] at hst
+    · simp [absConn, absSt, h, st_DISCONNECTED_BROKEN_CONN] at hst
+    · rw [absSt_conn h] at hst; exact absurd hst (by decide)
+    · rw [absSt_sent h] at hst; exact absurd hst (by decide)
+    · rw [absSt_awaiting h] at hst; exact absurd hst (by decide)
+    · exact h
+  simp only [Link.quiescent, Bool.and_eq_true, beq_iff_eq, List.isEmpty_iff]
+  refine ⟨⟨⟨st17 hg.i hi, st17 hg.a ha⟩, ?_⟩, ?_⟩
+  · have : (absLink l).toA = l.toA.map absFrame := rfl
+    rw [this] at hqa; simpa using hqa
+  · have : (absLink l).toI = l.toI.map absFrame := rfl
+    rw [this] at hqi; simpa using hqi
+
+/-- **Quiescence reachability.**  From every reachable state (with two numbers of head-room below `sys.maxsize` on
+each side), a break, a reconnect and delivery of the frames in flight – no further application sends – lead to both
+connections ACTIVE with nothing in flight: the recovery handshake terminates, and by `link_sync` everything accepted
+so far has then been delivered. -/
+theorem link_recovery (hb : Int) (evs : List Ev) (hwf : Wf evs)
+    (hr : (run (Link.init hb) evs).i.sess.nextOut + 2 ≤ sysMaxsize + 1 ∧
+      (run (Link.init hb) evs).a.sess.nextOut + 2 ≤ sysMaxsize + 1) :
+    ∃ rec : List Ev, Wf rec ∧ (∀ e ∈ rec, isRecoveryEv e = true) ∧
+      (run (Link.init hb) (evs ++ rec)).quiescent = true := by
+  obtain ⟨hg, hsafe, _⟩ := reach_inv hb evs hwf ⟨by have := hr.1; omega, by have := hr.2; omega⟩
+  obtain ⟨ea, hod, hq⟩ := recover_quiescent_safe (absLink (run (Link.init hb) evs)) hsafe hr
+  have hmap : (ea.map concEv).map absEv = ea := by
+    rw [List.map_map]
+    conv => rhs; rw [← List.map_id ea]
+    apply List.map_congr_left
+    intro e he
+    rcases hod e he with h | h <;> subst h <;> rfl
+  refine ⟨[.breakConn env0, .reconnect env0] ++ ea.map concEv, ?_, ?_, ?_⟩
+  · intro e he
+    simp only [List.cons_append, List.nil_append, List.mem_cons, List.mem_map] at he
+    rcases he with h | h | ⟨x, hx, h⟩
+    · subst h; decide
+    · subst h; decide
+    · subst h; rcases hod x hx with h | h <;> subst h <;> decide
+  · intro e he
+    simp only [List.cons_append, List.nil_append, List.mem_cons, List.mem_map] at he
+    rcases he with h | h | ⟨x, hx, h⟩
+    · subst h; rfl
+    · subst h; rfl
+    · subst h; rcases hod x hx with h | h <;> subst h <;> rfl
+  · have hwf' : Wf ([.breakConn env0, .reconnect env0] ++ ea.map concEv) := by
+      intro e he
+      simp only [List.cons_append, List.nil_append, List.mem_cons, List.mem_map] at he
+      rcases he with h | h | ⟨x, hx, h⟩
+      · subst h; decide
+      · subst h; decide
+      · subst h; rcases hod x hx with h | h <;> subst h <;> decide
+    obtain ⟨h1, h2⟩ := run_sim _ (run (Link.init hb) evs) hg hwf'
+    rw [run_append]
+    apply quiescent_of_abs h2
+    rw [h1]
+    simp only [List.map_append, List.map_cons, List.map_nil, hmap, absEv, List.cons_append, List.nil_append, arun]
+    exact hq
 
 /-! ### non-vacuity -/
 
